@@ -136,15 +136,18 @@ func (s *proposalStream) processMessages(ctx context.Context, nextMessage *conse
 }
 
 func (s *proposalStream) processProposalPart(ctx context.Context, messageContent []byte) error {
-	var err error
 	proposalPart := consensus.ProposalPart{}
-	if err = proto.Unmarshal(messageContent, &proposalPart); err != nil {
+	if err := proto.Unmarshal(messageContent, &proposalPart); err != nil {
 		return err
 	}
 
-	if s.stateMachine, err = s.stateMachine.OnEvent(ctx, s.transition, &proposalPart); err != nil {
+	// Keep the current state when the transition fails: the returned state is nil then, and a later
+	// first message for the same stream id would call OnEvent on it.
+	next, err := s.stateMachine.OnEvent(ctx, s.transition, &proposalPart)
+	if err != nil {
 		return err
 	}
+	s.stateMachine = next
 
 	return nil
 }
